@@ -1,15 +1,342 @@
-"""C10 native replay: search for a concrete input on which the real truncation helpers break the
-clause named by the failed obligation (cutoff index / split_matrix)."""
-import json, os, random, sys
+"""C10 native replay / falsifier.
+
+Searches for a concrete input on which the real code breaks the clause named by the failed
+obligation:
+  * cutoff index / split_matrix (arithmetic of one split, which factor is the isometry);
+  * truncate_impl, MPS.truncate, MPS.orthogonalize, MPS.norm, MPS.apply (and `+`, scalar `*`):
+    random small MPS -- including UNNORMALISED states (norm 0.05 .. 25) with a tail of small
+    singular values -- checked by dense reconstruction:
+      - no bond exceeds max_bond_dim,
+      - canonical form: every factor left (right) of the declared centre contracted with its
+        conjugate gives the identity,
+      - per-bond discarded weight in ABSOLUTE units: with P_j the projector on the right basis
+        spanned by the final factors j..N-1, delta_j = |P_{j+1} psi|^2 - |P_j psi|^2 (P_N = 1);
+        delta_j <= precision^2 unless bond j sits at the cap; sum_j delta_j = |psi - psi_trunc|^2,
+      - orthogonalize / norm: dense state unchanged, norm() = sqrt(<psi|psi>).
+Prints `REPRODUCED: ...` and exits 1 on the first failing input, else `NOT-REPRODUCED`, exit 0."""
+import json, math, os, random, sys, time
 import torch
 
+dtype = torch.complex128
 
+
+# ------------------------------------------------------------------------------------------------
+# dense helpers
+# ------------------------------------------------------------------------------------------------
+def dense(factors):
+    acc = torch.ones(1, 1, dtype=dtype)
+    for f in factors:
+        acc = torch.tensordot(acc, f.cpu().to(dtype), dims=1).reshape(-1, f.shape[2])
+    return acc.reshape(-1)
+
+
+def right_basis(factors, j):
+    """(chi_j, d^(N-j)) matrix of the right basis states built from factors j..N-1"""
+    acc = torch.ones(1, 1, dtype=dtype)
+    for f in reversed(factors[j:]):
+        # f: (a, s, b); acc: (b, rest) -> (a, s*rest)
+        acc = torch.tensordot(f.cpu().to(dtype), acc, dims=1).reshape(f.shape[0], -1)
+    return acc
+
+
+def canonical_problems(factors, c, tol=1e-8):
+    out = []
+    for i, f in enumerate(factors):
+        f = f.cpu()
+        if i < c:
+            g = torch.tensordot(f.conj(), f, ([0, 1], [0, 1]))
+            what = "left"
+        elif i > c:
+            g = torch.tensordot(f.conj(), f, ([1, 2], [1, 2]))
+            what = "right"
+        else:
+            continue
+        err = (g - torch.eye(g.shape[0], dtype=g.dtype)).abs().max().item()
+        if err > tol:
+            out.append(f"factor {i} is not {what}-orthonormal w.r.t. the declared centre {c} (deviation {err:.2e})")
+    return out
+
+
+def bond_consistency(factors):
+    for i in range(1, len(factors)):
+        if factors[i - 1].shape[2] != factors[i].shape[0]:
+            return f"bond {i}: right dim {factors[i-1].shape[2]} != left dim {factors[i].shape[0]}"
+    return None
+
+
+def per_bond_discards(psi, factors):
+    """delta_j for j = 1..N-1 (needs the factors j >= 1 right-orthonormal)"""
+    n = len(factors)
+    dim = factors[0].shape[1]
+    kept = [None] * (n + 1)
+    kept[n] = (psi.abs() ** 2).sum().item()
+    for j in range(1, n):
+        R = right_basis(factors, j)
+        m = psi.reshape(dim ** j, -1)
+        kept[j] = (torch.linalg.norm(m @ R.conj().T) ** 2).item()
+    return {j: kept[j + 1] - kept[j] for j in range(1, n)}
+
+
+def check_truncated(label, psi, factors, centre, precision, cap, norm_fn=None):
+    """all C10 clauses for a state that has just been truncated (centre expected at 0)"""
+    n = len(factors)
+    norm2 = (psi.abs() ** 2).sum().item()
+    bc = bond_consistency(factors)
+    if bc:
+        return f"{label}: {bc}"
+    if centre != 0:
+        return f"{label}: declared orthogonality centre is {centre}, expected 0 after truncation"
+    for j in range(1, n):
+        if factors[j].shape[0] > cap:
+            return f"{label}: bond {j} has dimension {factors[j].shape[0]} > max_bond_dim {cap}"
+    pr = canonical_problems(factors, 0)
+    if pr:
+        return f"{label}: {pr[0]}"
+    disc = per_bond_discards(psi, factors)
+    tol = precision ** 2 * 1e-6 + 1e-12 * max(norm2, 1.0)
+    for j, dj in disc.items():
+        if dj > precision ** 2 + tol and factors[j].shape[0] != cap:
+            return (f"{label}: weight discarded at bond {j} is {dj:.6e} = {dj / precision**2:.3f} * precision^2 "
+                    f"(absolute; |psi| = {math.sqrt(norm2):.4g}, bond dim {factors[j].shape[0]} < cap {cap})")
+    phi = dense(factors)
+    err2 = (torch.linalg.norm(phi - psi) ** 2).item()
+    if abs(err2 - sum(disc.values())) > 1e-9 * max(norm2, 1.0) + tol:
+        return (f"{label}: the state changed by more than the truncation accounts for: |psi-phi|^2 = {err2:.6e}, "
+                f"sum of per-bond discards = {sum(disc.values()):.6e}")
+    if norm_fn is not None:
+        nd = float(norm_fn())
+        nt = torch.linalg.norm(phi).item()
+        if abs(nd - nt) > 1e-9 * max(1.0, nt):
+            return f"{label}: norm() = {nd:.12g} but sqrt(<psi|psi>) = {nt:.12g}"
+    return None
+
+
+# ------------------------------------------------------------------------------------------------
+# inputs
+# ------------------------------------------------------------------------------------------------
+def random_unitary(n, gen):
+    q, _ = torch.linalg.qr(torch.randn(n, n, dtype=dtype, generator=gen))
+    return q
+
+
+def state_with_tail(num_sites, dim, cut, tail_value, n_big, norm, gen):
+    """dense state of norm `norm` whose Schmidt values at `cut` are n_big equal large ones and a flat
+    tail of `tail_value`"""
+    dl, dr = dim ** cut, dim ** (num_sites - cut)
+    k = min(dl, dr)
+    n_big = min(n_big, k)
+    s = torch.full((k,), float(tail_value), dtype=torch.float64)
+    tail_weight = (k - n_big) * tail_value ** 2
+    s[:n_big] = math.sqrt(max(norm ** 2 - tail_weight, 1e-30) / n_big)
+    u = random_unitary(dl, gen)[:, :k]
+    v = random_unitary(dr, gen)[:, :k]
+    return ((u * s.to(dtype)) @ v.T).reshape(-1)
+
+
+def exact_factors(psi, num_sites, dim):
+    """untruncated factors of a dense state (successive QR): left-orthonormal, centre on the last site"""
+    factors = []
+    rest = psi.reshape(1, -1)
+    for _ in range(num_sites - 1):
+        left = rest.shape[0]
+        q, r = torch.linalg.qr(rest.reshape(left * dim, -1))
+        factors.append(q.reshape(left, dim, -1))
+        rest = r
+    factors.append(rest.reshape(rest.shape[0], dim, 1))
+    return factors
+
+
+def random_factors(num_sites, dim, chi, scale, gen):
+    dims = [1] + [min(chi, dim ** min(i, num_sites - i)) for i in range(1, num_sites)] + [1]
+    fs = [torch.randn(dims[i], dim, dims[i + 1], dtype=dtype, generator=gen) for i in range(num_sites)]
+    fs[0] = fs[0] * scale
+    return fs
+
+
+def cases(rnd, gen, budget):
+    """(label, psi, factors(list, centre last, left-orthonormal), N, dim, precision, cap)"""
+    k = 0
+    while k < budget:
+        k += 1
+        dim = rnd.choice([2, 2, 3])
+        n = rnd.choice([2, 3, 4, 5, 6] if dim == 2 else [2, 3, 4])
+        precision = rnd.choice([1e-2, 1e-3, 1e-4])
+        norm = rnd.choice([0.05, 1.0, 1.0, 3.0, 7.5, 25.0])
+        kind = rnd.choice(["tail", "tail", "gauss", "gauss+tail"])
+        if kind == "tail":
+            cut = rnd.randint(1, n - 1)
+            ratio = rnd.choice([0.3, 0.6, 0.9, 1.5, 3.0])
+            psi = state_with_tail(n, dim, cut, ratio * precision, rnd.randint(1, 3), norm, gen)
+            cap = rnd.choice([64, 64, 64, 3, 1])
+        else:
+            fs = random_factors(n, dim, rnd.randint(1, 4), 1.0, gen)
+            psi = dense(fs)
+            psi = psi / torch.linalg.norm(psi) * norm
+            if kind == "gauss+tail":
+                noise = torch.randn(psi.shape, dtype=dtype, generator=gen)
+                psi = psi + noise / torch.linalg.norm(noise) * precision * rnd.choice([0.5, 2.0, 6.0])
+            cap = rnd.choice([64, 64, 2, 1])
+        label = (f"N={n} dim={dim} precision={precision:g} max_bond_dim={cap} |psi|={torch.linalg.norm(psi).item():.4g} "
+                 f"kind={kind}")
+        yield label, psi, exact_factors(psi, n, dim), n, dim, precision, cap
+
+
+def make_mps(MPS, factors, dim, precision, cap, centre=None):
+    eig = ("r", "g") if dim == 2 else ("g", "r", "x")
+    return MPS([f.clone() for f in factors], precision=precision, max_bond_dim=cap, eigenstates=eig,
+               num_gpus_to_use=0, orthogonality_center=centre)
+
+
+# ------------------------------------------------------------------------------------------------
+# falsifiers per operation
+# ------------------------------------------------------------------------------------------------
+def falsify_truncate_impl(rnd, gen, budget):
+    from emu_mps.utils import truncate_impl
+    for label, psi, fs, n, dim, precision, cap in cases(rnd, gen, budget):
+        fs = [f.clone() for f in fs]
+        try:
+            truncate_impl(fs, precision=precision, max_bond_dim=cap)
+        except Exception as e:
+            return f"truncate_impl raised {type(e).__name__}: {e} [{label}]"
+        bad = check_truncated("truncate_impl " + label, psi, fs, 0, precision, cap)
+        if bad:
+            return bad
+    return None
+
+
+def falsify_mps_truncate(rnd, gen, budget):
+    from emu_mps import MPS
+    for label, psi, fs, n, dim, precision, cap in cases(rnd, gen, budget):
+        if n < 2:
+            continue
+        variant = rnd.choice(["centre None", "centre last", "scrambled gauge", "sum"])
+        if variant == "scrambled gauge":
+            # same state, arbitrary gauge: insert X X^-1 on every bond; no centre declared
+            fs2 = [f.clone() for f in fs]
+            for b in range(1, n):
+                chi = fs2[b].shape[0]
+                x = torch.randn(chi, chi, dtype=dtype, generator=gen) + 2 * torch.eye(chi, dtype=dtype)
+                fs2[b - 1] = torch.tensordot(fs2[b - 1], x, dims=1)
+                fs2[b] = torch.tensordot(torch.linalg.inv(x), fs2[b], dims=1)
+            st = make_mps(MPS, fs2, dim, precision, cap, None)
+            ref = dense(fs2)
+        elif variant == "sum":
+            a = make_mps(MPS, fs, dim, precision, cap, n - 1)
+            b = make_mps(MPS, fs, dim, precision, cap, n - 1)
+            try:
+                st = 0.5 * a + 0.5 * b
+            except Exception as e:
+                return f"0.5*psi + 0.5*psi raised {type(e).__name__}: {e} [{label}]"
+            bad = check_truncated("MPS.__add__ (0.5*psi + 0.5*psi) " + label, psi, st.factors,
+                                  st.orthogonality_center, precision, cap, st.norm)
+            if bad:
+                return bad
+            continue
+        else:
+            st = make_mps(MPS, fs, dim, precision, cap, None if variant == "centre None" else n - 1)
+            ref = psi
+        try:
+            st.truncate()
+        except Exception as e:
+            return f"MPS.truncate raised {type(e).__name__}: {e} [{label}, {variant}]"
+        bad = check_truncated(f"MPS.truncate ({variant}) " + label, ref, st.factors, st.orthogonality_center,
+                              precision, cap, st.norm)
+        if bad:
+            return bad
+    return None
+
+
+def falsify_orthogonalize(rnd, gen, budget, also_norm_apply=True):
+    from emu_mps import MPS
+    for t in range(budget):
+        dim = rnd.choice([2, 3])
+        n = rnd.randint(2, 6 if dim == 2 else 4)
+        scale = rnd.choice([0.05, 1.0, 4.0, 25.0])
+        fs = random_factors(n, dim, rnd.randint(1, 5), scale, gen)
+        st = make_mps(MPS, fs, dim, 1e-5, 1024, None)
+        ref = dense(st.factors)
+        nref = torch.linalg.norm(ref).item()
+        label = f"N={n} dim={dim} |psi|={nref:.4g}"
+        for step in range(4):
+            c = rnd.randrange(n)
+            before = [f.shape[0] for f in st.factors]
+            try:
+                res = st.orthogonalize(c)
+            except Exception as e:
+                return f"orthogonalize({c}) raised {type(e).__name__}: {e} [{label}]"
+            if res != c or st.orthogonality_center != c:
+                return f"orthogonalize({c}) returned {res}, declared centre {st.orthogonality_center} [{label}]"
+            bc = bond_consistency(st.factors)
+            if bc:
+                return f"orthogonalize({c}): {bc} [{label}]"
+            pr = canonical_problems(st.factors, c)
+            if pr:
+                return f"orthogonalize({c}) (step {step}, previous centre history random): {pr[0]} [{label}]"
+            if any(f.shape[0] > b for f, b in zip(st.factors, before)):
+                return f"orthogonalize({c}) increased a bond: {before} -> {[f.shape[0] for f in st.factors]} [{label}]"
+            now = dense(st.factors)
+            if torch.linalg.norm(now - ref).item() > 1e-9 * max(1.0, nref):
+                return f"orthogonalize({c}) changed the state by {torch.linalg.norm(now - ref).item():.3e} [{label}]"
+            if also_norm_apply:
+                nd = float(st.norm())
+                if abs(nd - nref) > 1e-9 * max(1.0, nref):
+                    return f"norm() = {nd:.12g} but sqrt(<psi|psi>) = {nref:.12g} after orthogonalize({c}) [{label}]"
+        if also_norm_apply:
+            # norm() without a declared centre
+            st2 = make_mps(MPS, fs, dim, 1e-5, 1024, None)
+            nd = float(st2.norm())
+            if abs(nd - nref) > 1e-9 * max(1.0, nref):
+                return f"norm() = {nd:.12g} but sqrt(<psi|psi>) = {nref:.12g} (no declared centre) [{label}]"
+            if st2.orthogonality_center is None or canonical_problems(st2.factors, st2.orthogonality_center):
+                return f"norm() left centre {st2.orthogonality_center} but the factors are not canonical [{label}]"
+            # apply: centre on the qubit, canonical, state = op_q psi
+            q = rnd.randrange(n)
+            op = torch.randn(dim, dim, dtype=dtype, generator=gen)
+            st3 = make_mps(MPS, fs, dim, 1e-5, 1024, None)
+            st3.apply(q, op)
+            if st3.orthogonality_center != q:
+                return f"apply({q}, op): declared centre {st3.orthogonality_center} [{label}]"
+            pr = canonical_problems(st3.factors, q)
+            if pr:
+                return f"apply({q}, op): {pr[0]} [{label}]"
+            want = torch.tensordot(op, ref.reshape(dim ** q, dim, -1), ([1], [1])).permute(1, 0, 2).reshape(-1)
+            if torch.linalg.norm(dense(st3.factors) - want).item() > 1e-9 * max(1.0, nref):
+                return f"apply({q}, op): state differs from op_q psi [{label}]"
+    return None
+
+
+def falsify_scaling(rnd, gen, budget):
+    """c * psi keeps the declared centre valid and scales the state; (c*psi) + (c*psi) truncates in
+    absolute units"""
+    from emu_mps import MPS
+    for label, psi, fs, n, dim, precision, cap in cases(rnd, gen, budget):
+        st = make_mps(MPS, fs, dim, precision, 64, n - 1)
+        st.truncate()
+        ref = dense(st.factors)
+        c = rnd.choice([0.5, 3.0, 25.0, complex(0, 2.0)])
+        big = c * st
+        if big.orthogonality_center is not None:
+            pr = canonical_problems(big.factors, big.orthogonality_center)
+            if pr:
+                return f"{c} * psi: {pr[0]} [{label}]"
+        if torch.linalg.norm(dense(big.factors) - c * ref).item() > 1e-9 * max(1.0, abs(c) * torch.linalg.norm(ref).item()):
+            return f"{c} * psi: state is not the scaled state [{label}]"
+        tot = big + big
+        bad = check_truncated(f"({c}*psi) + ({c}*psi) " + label, 2 * c * ref, tot.factors, tot.orthogonality_center,
+                              precision, 64, tot.norm)
+        if bad:
+            return bad
+    return None
+
+
+# ------------------------------------------------------------------------------------------------
 def main():
     rec = json.load(open(sys.argv[1]))
     ob = rec["obligation"]
     seed = int(os.environ.get("VERIF_SEED", "0"))
     rnd = random.Random(seed)
     torch.manual_seed(seed)
+    gen = torch.Generator().manual_seed(20260922 + seed)
     from emu_mps.utils import _determine_cutoff_index, split_matrix
     if "_determine_cutoff_index" in ob:
         for t in range(20000):
@@ -36,7 +363,8 @@ def main():
             eps = rnd.choice([1e-8, 1e-3, 0.5, 2.0])
             rank = rnd.randint(1, 6)
             right = rnd.random() < 0.5
-            left, rgt = split_matrix(m, eps, rank, right)
+            pn = rnd.random() < 0.3
+            left, rgt = split_matrix(m, eps, rank, right, pn)
             k = left.shape[1]
             n = r if right else c
             gram = m @ m.T.conj() if right else m.T.conj() @ m
@@ -48,9 +376,40 @@ def main():
                 print(f"REPRODUCED: split_matrix(shape {r}x{c}, max_error={eps}, max_rank={rank}, "
                       f"orth_center_right={right}) -> bond {k}, discarded weight {disc}, budget {eps*eps}")
                 return 1
-        print("NOT-REPRODUCED: 3000 random matrices satisfy shape, cap and error-budget clauses")
+            # the factor away from the future centre is an isometry
+            iso = left if right else rgt
+            g = iso.T.conj() @ iso if right else iso @ iso.T.conj()
+            dev = (g - torch.eye(k, dtype=g.dtype)).abs().max().item()
+            if dev > 1e-9:
+                print(f"REPRODUCED: split_matrix(shape {r}x{c}, orth_center_right={right}, preserve_norm={pn}): the "
+                      f"{'left' if right else 'right'} factor is not an isometry (deviation {dev:.2e})")
+                return 1
+        print("NOT-REPRODUCED: 3000 random matrices satisfy shape, cap, error-budget and isometry clauses")
         return 0
-    print("NOT-REPRODUCED: no native replay for this obligation")
+    # ---- MPS level: the property-level falsifier, most relevant operation first -----------------
+    plan = [("truncate_impl", lambda: falsify_truncate_impl(rnd, gen, 250)),
+            ("MPS.truncate", lambda: falsify_mps_truncate(rnd, gen, 250)),
+            ("MPS.orthogonalize", lambda: falsify_orthogonalize(rnd, gen, 120)),
+            ("scaling", lambda: falsify_scaling(rnd, gen, 60))]
+    first = [p for p in plan if p[0] in ob] or []
+    if any(x in ob for x in ("MPS.norm", "MPS.apply")):
+        first = [plan[2]]
+    if any(x in ob for x in ("__rmul__", "__imul__", "__add__")):
+        first = [plan[3], plan[1]]
+    order = first + [p for p in plan if p not in first]
+    t0 = time.time()
+    ran = []
+    for name, fn in order:
+        bad = fn()
+        ran.append(name)
+        if bad:
+            print("REPRODUCED: " + bad)
+            return 1
+        if time.time() - t0 > 240:
+            break
+    print(f"NOT-REPRODUCED: random unnormalised MPS with singular-value tails satisfy bond cap, per-bond absolute "
+          f"discarded weight, canonical form, state preservation and norm() for {', '.join(ran)} "
+          f"({time.time() - t0:.0f} s)")
     return 0
 
 
